@@ -235,10 +235,18 @@ package beacon
 //@ pred cachedFor(c, r, j) := has(c.rounds, r) && has(c.rounds[r].sigs, j)
 // ridOf(round, previous signature): the key of a round cache
 //@ ghost ridOf(int, bytes) string
-//@ extern roundID(round, previous) (r)
-//@   trusted formats the round number and the previous signature into the cache key: a function of its arguments
+// The key is built from the round number (8 bytes) and the WHOLE previous signature, both written into one buffer whose
+// content is returned: two partials of one round over different previous signatures never share a round cache (C03: a
+// partial signed for another previous signature never counts towards the threshold). The string made of those bytes is
+// a function of (round, previous): introduced by definition at the return (trusted: bytes.Buffer concatenates).
+// (round0 / prev0 name the values the function was entered with: Go parameters are assignable.)
+//@ func roundID(round0, prev0) (r)
+//@   props C03 C12
 //@   modifies nothing
-//@   ensures r == ridOf(round, previous)
+//@   defines r == ridOf(round0, prev0)
+//@   call Write#0: assert [C03:the-round-cache-key-contains-the-round-number] arg0 == addr(buff) && typeis(arg2, "uint64") && ref(arg2) == round0
+//@   call Write#1: assert [C03:the-round-cache-key-contains-the-whole-previous-signature] arg0 == addr(buff) && arg1 == prev0
+//@   call String#0: assert [C03:the-round-cache-key-is-the-content-of-that-buffer] arg0 == addr(buff)
 //@ func (*partialCache).Append(c, p) (err)
 //@   props C12
 //@   requires [C12] cacheShape(c) && cacheBounded(c) && p != nil
@@ -413,17 +421,22 @@ package beacon
 //@   ensures err == fnresult
 
 //@ func SyncChain$3(b, closed)
-//@   props C11
+//@   props C11 C12
 //@   requires !closed ==> b != nil
 //@   call send#0: assert [C11:live-delivery-sends-the-dispatched-beacon] arg0 == b
+//@   call RemoveCallback#0: assert [C12:a-stream-whose-send-failed-unregisters-the-callback-it-registered] arg1 == id
 
 // Other goroutines store beacons at any time: before every call of SyncChain the set of stored rounds may have grown
 // (append-only, C02). sent / lastSent belong to this activation alone.
 //@ func SyncChain(l, store, req, stream) (err)
-//@   props C11
+//@   props C11 C12
 //@   flags interleaved
 //@   requires [wf] ref(stream) == theStream() && ref(store) == theStore() && l != nil
 //@   rely grows stored(theStore())
+// C12: the callback is registered under the id of this stream and unregistered under the same id when the stream ends
+// (otherwise every consumer that ever went away keeps a registry entry, a queue and a worker for the life of the daemon)
+//@   call AddCallback#0: assert [C12:the-live-callback-is-registered-under-the-id-of-this-stream] arg1 == id
+//@   call RemoveCallback#0: assert [C12:a-stream-that-ends-unregisters-the-callback-it-registered] arg1 == id
 //@   call AddCallback#0: assert [C11:the-head-seen-when-the-stream-started-was-delivered-before-going-live] fromRound != 0 ==> sent(theStream(), last.Round)
 //@   call AddCallback#0: assert [C11:no-stored-round-is-skipped-between-catch-up-and-live-delivery] fromRound != 0 ==> (forall r int :: fromRound <= r && stored(theStore(), r) ==> sent(theStream(), r))
 
